@@ -123,7 +123,6 @@ func fieldsN(s string, n int) []string {
 
 func init() {
 	StringType.Dict["endswith"] = MustNewMethod("endswith", func(self Object, args Tuple) (Object, error) {
-		selfStr := string(self.(String))
 		suffix := []string{}
 		if len(args) > 0 {
 			if s, ok := args[0].(String); ok {
@@ -139,6 +138,10 @@ func init() {
 			}
 		} else {
 			return nil, ExceptionNewf(TypeError, "endswith() takes at least 1 argument (0 given)")
+		}
+		selfStr, ok := stringWindow(self.(String), args)
+		if !ok {
+			return Bool(false), nil
 		}
 		for _, s := range suffix {
 			if strings.HasSuffix(selfStr, s) {
@@ -182,7 +185,6 @@ replaced.`)
 	}, 0, "split(sub) -> split string with sub.")
 
 	StringType.Dict["startswith"] = MustNewMethod("startswith", func(self Object, args Tuple) (Object, error) {
-		selfStr := string(self.(String))
 		prefix := []string{}
 		if len(args) > 0 {
 			if s, ok := args[0].(String); ok {
@@ -199,12 +201,10 @@ replaced.`)
 		} else {
 			return nil, ExceptionNewf(TypeError, "startswith() takes at least 1 argument (0 given)")
 		}
-		if len(args) > 1 {
-			if s, ok := args[1].(Int); ok {
-				selfStr = selfStr[s:]
-			}
+		selfStr, ok := stringWindow(self.(String), args)
+		if !ok {
+			return Bool(false), nil
 		}
-
 		for _, s := range prefix {
 			if strings.HasPrefix(selfStr, s) {
 				return Bool(true), nil
@@ -239,6 +239,46 @@ replaced.`)
 }
 
 // Type of this object
+// stringWindow returns s[start:end] for the optional start and end
+// arguments of startswith and endswith (args[1] and args[2]), which
+// count characters and are interpreted as in slice notation.
+//
+// ok is false if start is beyond the end of the string, in which
+// case nothing matches, not even the empty string.
+func stringWindow(s String, args Tuple) (window string, ok bool) {
+	size := s.len()
+	start, end := 0, size
+	if len(args) > 1 {
+		if i, isInt := args[1].(Int); isInt {
+			start = int(i)
+		}
+	}
+	if len(args) > 2 {
+		if i, isInt := args[2].(Int); isInt {
+			end = int(i)
+		}
+	}
+	if start < 0 {
+		start += size
+		if start < 0 {
+			start = 0
+		}
+	}
+	if end < 0 {
+		end += size
+		if end < 0 {
+			end = 0
+		}
+	}
+	if end > size {
+		end = size
+	}
+	if start > size {
+		return "", false
+	}
+	return string(s.slice(start, end, size)), true
+}
+
 func (s String) Type() *Type {
 	return StringType
 }
